@@ -6,6 +6,7 @@ LEVEL = ("bounded symbolic execution of the real code over exact reals; every ob
          "(in)equalities decided by z3 (QF_LRA monomial abstraction of QF_NRA with solver-checked lemma selection); "
          "counterexample candidates are replayed on the unpatched float code before VIOLATION is printed")
 CLAIMED = {
+ "C20": ("per bootstrap member with ENUMERATED resample index vectors (rng stubbed): variances / components equal an independent EOF of exactly those rows, scores are the projection of the original samples, orthonormal components, non-negative descending variances, non-negative alignment statistic after the sign flip, member dimension length, seed forwarded", "5 C20"),
  "C11": ("kernel: real _varimax (1-2 iterations) and _promax on symbolic loadings: R unitary, Xrot == X R / X rot_mat; model level (promax contract): reconstruction from rotated scores == reconstruction from the same k unrotated modes, descending order on every path, Varimax keeps normalised scores orthonormal and conserves summed explained variance", "5 C11"),
  "C10": ("MCA/CCA/RDA == CPCCA at alpha 1 / 0 / (0,1); Complex model on real data == real model; ExtendedEOF(embedding=1) == EOF; MCA(X,X) == EOF(X) (singular values == explained variances, patterns up to sign) - term identities on shared symbolic data", "5 C10"),
  "C09": ("components diagonalise the oracle fractionally whitened cross-covariance with the reported singular values on the diagonal; scores are the whitened data projected on them; singular values non-negative descending; MCA orthonormal components and total squared covariance; reported correlations are Gram correlations with unit self-correlation", "5 C09"),
